@@ -302,7 +302,50 @@ def _repeat_offsets(ctx, rule):
                   "initial repeat offsets must be 1, 4, 8", observed=vals)
 
 
+BRR = "ruzstd::bit_io::bit_reader_reverse::BitReaderReversed"
+
+
+def _bit_reads(ctx, R):
+    """The extra bits of a sequence (offset, match length, literal length) are fetched with one triple read.  The
+    (code, extra bits) -> value mapping holds only if that triple read returns what three single reads in the same
+    order would: decided on the result tables of the reversed bit reader (conditions -> canonical value)."""
+    def table(fn):
+        b = ctx.hir(BRR + "::" + fn)
+        ix = hq.Index(b)
+        cf = hq.Canon(b, force=True)
+        return b, ix, {tuple(c): v for c, v, _ in ix.result_cases(cf)}
+    W1 = "(self.bit_container >> ((64 - self.bits_consumed) - $0))"
+    b, ix, t = table("peek_bits")
+    want = {("($0 != 0)",): "(((1 << $0) - 1) & %s)" % W1, ("($0 == 0)",): "0"}
+    ctx.check(t == want, R, "peek_bits::top-n-unread-bits", b["file"], "a single read takes the n most significant unread bits of the container", observed=t, expected=want)
+    b, ix, t = table("peek_bits_triple")
+    want = {("($0 != 0)",): "((((1 << $1) - 1) & (%s >> ($2 + $3))), (((1 << $2) - 1) & (%s >> $3)), (((1 << $3) - 1) & %s))" % (W1, W1, W1),
+            ("($0 == 0)",): "(0, 0, 0)"}
+    ctx.check(t == want, R, "peek_bits_triple::as-three-reads-in-order", b["file"],
+              "of the `sum` most significant unread bits the first value takes the top n1, the second the next n2, the third the low n3", observed=t, expected=want)
+    b, ix, t = table("get_bits_triple")
+    S = "($0 + $1 + $2)"
+    G = BRR + "::get_bits(self, $%d)"
+    want = {("(56 < %s)" % S,): "(%s, %s, %s)" % (G % 0, G % 1, G % 2),
+            ("(%s <= 56)" % S,): "%s::peek_bits_triple(self, %s, $0, $1, $2)" % (BRR, S)}
+    ctx.check(t == want, R, "get_bits_triple::cases", b["file"],
+              "at most 56 bits: one peek of the three values; more: three single reads of n1, n2, n3", observed=t, expected=want)
+    calls = [x for x in hq.find(b["body"], lambda x: x.get("k") == "MethodCall" and x["name"] in ("get_bits", "refill", "peek_bits_triple", "consume"))]
+    calls.sort(key=lambda x: x["sp"][0])
+    seq = [(x["name"], ix.canon(x["args"][0]) if x["args"] else "") for x in calls]
+    want_seq = [("refill", ""), ("peek_bits_triple", S), ("consume", S), ("get_bits", "$0"), ("get_bits", "$1"), ("get_bits", "$2")]
+    ctx.check(seq == want_seq, R, "get_bits_triple::order", b["file"],
+              "refill, peek, consume(sum) on the fast path; the three single reads in parameter order on the slow path", observed=seq, expected=want_seq)
+    b, ix, t = table("get_bits")
+    calls = [x for x in hq.find(b["body"], lambda x: x.get("k") == "MethodCall" and x["name"] in ("refill", "peek_bits", "consume"))]
+    calls.sort(key=lambda x: x["sp"][0])
+    seq = [(x["name"], ix.canon(x["args"][0]) if x["args"] else "") for x in calls]
+    ctx.check(t == {(): BRR + "::peek_bits(self, $0)"} and seq == [("refill", ""), ("peek_bits", "$0"), ("consume", "$0")], R, "get_bits::peek-then-consume",
+              b["file"], "a read is a peek of n bits followed by consuming n", observed=[t, seq])
+
+
 def run(ctx):
+    ctx.guard("C14.order.bit-reads", "triple", lambda: _bit_reads(ctx, "C14.order.bit-reads"))
     R = "C14.table.value-codes"
     n = [0]
     ctx.guard(R, "lookup_ll_code", lambda: n.__setitem__(0, n[0] + _code_table_decoder(ctx, R, SSD + "::lookup_ll_code", SPEC["ll_codes"], "LL")))
